@@ -277,7 +277,15 @@ impl LruDiskCache {
         let rel_path = key.as_ref();
         let path = self.rel_to_abs_path(rel_path);
         fs::create_dir_all(path.parent().expect("Bad path?"))?;
-        by(&path)?;
+        // The file at `path` is about to be replaced: forget any previous entry
+        // for this key, so that its old size is no longer counted and making
+        // space below cannot evict the key (deleting the file just written).
+        self.lru.remove(rel_path);
+        if let Err(e) = by(&path) {
+            // Whatever is at `path` now is neither the old nor the new entry.
+            let _ = fs::remove_file(&path);
+            return Err(e.into());
+        }
         let size = match size {
             Some(size) => size,
             None => fs::metadata(path)?.len(),
